@@ -142,6 +142,13 @@ def gen_cases(tier, seed):
         args = ["--driver", driver, "-w", str(r.choice([1, 2, 4])), "--reflink", "never"] + (["--no-progress"] if bsv is None else ["--block-size", str(bsv)]) + ["src/f0", "dst"]
         yield {"kind": "xcp", "fs": ["tmpfs", "ext4"][(i // 2) % 2], "spec": [{"p": "src", "k": "d"}, f], "args": args,
                "driver": driver, "block": bname, "bsv": bsv, "policy": kind + ":bigblock", "rules": rules}
+    # sources of reported length 0 (the kernel's own files): their content arrives in short reads by nature
+    for i, path in enumerate([p_ for p_ in ["/proc/crypto", "/proc/kallsyms", "/proc/version", "/proc/filesystems"] if os.path.exists(p_)]):
+        for driver in ("parfile", "parblock"):
+            for pol, rules in (("none", []), ("read-short", [{"id": "s", "sys": "read", "action": "short", "len": ["half", "cap:1000", "minus1", "rand"][i % 4]}]),
+                               ("write-short", [{"id": "s", "sys": "write", "action": "short", "len": ["cap:1000", "half", "rand", "minus1"][i % 4]}])):
+                yield {"unsized": path, "kind": "unsized", "fs": ["ext4", "tmpfs"][i % 2], "driver": driver, "policy": pol, "rules": rules,
+                       "args": ["--driver", driver, "-w", "2"] + [["--block-size", "4096"], ["--no-progress"], [], ["--block-size", "7"]][i % 4] + [path, "dst"]}
     # portable back end through the libfs-only probe
     m = 120 if tier == "quick" else 3000
     for i in range(m):
@@ -169,8 +176,35 @@ def gen_cases(tier, seed):
                "api": api, "bsv": bsv, "policy": pol, "rules": rules}
 
 
+def run_unsized(case, res):
+    """A source whose length the kernel reports as 0 and whose content it hands out a page of records at a time (short reads by
+    nature), optionally with the reads / writes clamped further."""
+    with core.Sandbox(case["fs"], "c05") as sb:
+        want = open(case["unsized"], "rb").read()
+        if want != open(case["unsized"], "rb").read():
+            res["inconc"].append("unsized-source-not-stable")
+            return res
+        rules = [dict(x, under=("/proc/" if x["sys"] in ("read", "pread64") else sb.root + "/")) for x in case["rules"]]
+        run = core.run_xcp(sb, case["args"], {"log_mode": "none", "rules": rules, "max_steps": 3000000, "wall_ms": 240000})
+        if run.verdict != "exited":
+            res["inconc"].append("run-" + run.verdict)
+            return res
+        res["counters"]["clamps+refusals-applied"] = sum(v["applied"] for v in run.summary.get("rules", {}).values())
+        if not run.exit0:
+            res["counters"]["nonzero:unsized"] = 1
+        else:
+            got = open(os.path.join(sb.root, "dst"), "rb").read()
+            if got != want:
+                res["viol"].append({"sig": "%s:unsized:%s:%s" % (case["driver"], case["policy"], "size" if len(got) != len(want) else "bytes"),
+                                    "what": "exit 0 but the copy of %s holds %d bytes, reading the source gives %d (policy %s); %s" % (case["unsized"], len(got), len(want), case["policy"], " ".join(case["args"]))})
+        res["evals"].append({"key": [case["driver"], "unsized", case["unsized"], case["policy"], case["fs"]], "sample": {"args": case["args"], "rules": case["rules"], "source_bytes": len(want)}})
+    return res
+
+
 def run_case(case):
     res = {"evals": [], "viol": [], "inconc": [], "counters": {}}
+    if case.get("unsized"):
+        return run_unsized(case, res)
     with core.Sandbox(case["fs"], "c05") as sb:
         root = sb.root
         tree.materialize(root, case["spec"])
